@@ -168,6 +168,11 @@ def _buildtree_on(chk, repo, ci, fn, src):
             "divergence indicator s' = [log u < Delta_max + H']", "n_alpha' = 1", "both tree ends are the new state",
             "both end momenta are the new momentum", "both end gradients are the new gradient"]
     problems = []
+    # the names of the 13 tree quantities are read off the first recursive call (by position), so that the leaf patterns cannot bind e.g. `n_alpha' = 1`
+    # to another variable that happens to be set to 1
+    pre, _ = unify(["$xm,$rm,$gm,$xp,$rp,$gp,$x1,$l1,$g1,$n1,$s1,$a1,$na1=self._BuildTree($x0,$r0,$g0,$H,$U,$V,$J-1,$E)"], region("F"), B0)
+    if pre is not None:
+        B0 = dict(pre)
     b, fail = unify(leaf_patterns, base, B0)
     if b is None:
         problems.append(f"leaf: {msgs[fail]} (no statement of the base case matches `{leaf_patterns[fail]}` consistently with the others)")
@@ -182,6 +187,19 @@ def _buildtree_on(chk, repo, ci, fn, src):
             if bb is not None:
                 b, ok = bb, True
                 break
+        if not ok:
+            # the same conditional written as a statement (the views' normal form): `if 0 < dH: a = 1  else: a = exp(dH)`
+            for pats in (["$dH=$H1-$H", "if: 0<$dH", "$a1=1", "$a1=np.exp($dH)"], ["$dH=$H1-$H", "if: 0<=$dH", "$a1=1", "$a1=np.exp($dH)"],
+                         ["if: 0<$H1-$H", "$a1=1", "$a1=np.exp($H1-$H)"], ["if: 0<=$H1-$H", "$a1=1", "$a1=np.exp($H1-$H)"],
+                         ["if: $H<$H1", "$a1=1", "$a1=np.exp($H1-$H)"], ["if: $H<=$H1", "$a1=1", "$a1=np.exp($H1-$H)"]):
+                bb, used = unify(pats, base, b)
+                if bb is None:
+                    continue
+                tnode = next((t for t in g.tests() if t.ast is used[-3] or getattr(used[-3], "test", None) is t.ast), None)
+                one = g.stmt_node_containing(used[-2])
+                if tnode is not None and one is not None and g.requires_edge(one, tnode, "T"):
+                    b, ok = bb, True
+                    break
         if not ok:
             problems.append("leaf: alpha' is not min(1, exp(H' - H))")
         d = dict(zip(reversed([a.arg for a in fn.args.args]), reversed(fn.args.defaults)))
